@@ -104,6 +104,9 @@ type readSite struct {
 	inner   ssa.CallInstruction // the Message.Read call
 	msgIdx  int                 // result of the helper carrying the message
 	problem string
+	// the helper also dispatches the message it read (receive() error): the
+	// dispatch call inside it, nil otherwise
+	dispatchInHelper ssa.CallInstruction
 }
 
 func (a *epAnchors) readSite(c *core.Ctx) *readSite {
@@ -159,7 +162,15 @@ func (a *epAnchors) readSite(c *core.Ctx) *readSite {
 			}
 		}
 		if rs.msgIdx < 0 {
-			rs.problem = "the helper that reads the message does not return the message it read"
+			// … or it dispatches that message itself and only returns the error of the read
+			for _, ic := range core.Calls(rs.helper) {
+				if core.IsCallTo(ic, a.dispatch) && len(ic.Common().Args) > 1 && core.Canon(ic.Common().Args[1]) == msg {
+					rs.dispatchInHelper = ic
+				}
+			}
+			if rs.dispatchInHelper == nil {
+				rs.problem = "the helper that reads the message does not return the message it read"
+			}
 		}
 	}
 	return rs
@@ -964,6 +975,79 @@ func (s handlerSite) key() string {
 
 // handlerSites enumerates every MakeHandler/AddHandler call of the repository
 // (non-test code).
+// thinWrapperOf: f is a private function that does nothing but call the
+// EndPoint method `name` on one of its parameters with its other parameters
+// (converted if need be) and hand back the result (makeHandler(e, f, q, c)
+// handlerID { return handlerID(e.MakeHandler(f, q, c)) }).  perm[i] is the index
+// of the parameter of f passed as the i-th argument of the method.
+func thinWrapperOf(c *core.Ctx, f *ssa.Function, name string) ([]int, bool) {
+	if f == nil || len(f.Blocks) != 1 || !isPrivateHelper(c, f) {
+		return nil, false
+	}
+	var the ssa.CallInstruction
+	for _, call := range core.Calls(f) {
+		if the != nil {
+			return nil, false
+		}
+		the = call
+	}
+	if the == nil {
+		return nil, false
+	}
+	cc := the.Common()
+	if !cc.IsInvoke() || cc.Method.Name() != name || !core.TypeIs(cc.Value.Type(), "bus/net", "EndPoint") {
+		return nil, false
+	}
+	if _, isP := core.Canon(cc.Value).(*ssa.Parameter); !isP {
+		return nil, false
+	}
+	perm := make([]int, len(cc.Args))
+	for i, a := range cc.Args {
+		perm[i] = -1
+		pa, isP := core.StripConv(core.Canon(a)).(*ssa.Parameter)
+		if !isP {
+			return nil, false
+		}
+		for j, q := range f.Params {
+			if q == pa {
+				perm[i] = j
+			}
+		}
+		if perm[i] < 0 {
+			return nil, false
+		}
+	}
+	return perm, true
+}
+
+// epCall: call invokes the EndPoint method `name` — directly, through the
+// concrete end point's method, or through a thin wrapper of the repository:
+// the arguments of the method as seen at this call.
+func epCall(c *core.Ctx, call ssa.CallInstruction, name string) ([]ssa.Value, bool) {
+	cc := call.Common()
+	if cc.IsInvoke() {
+		if cc.Method.Name() == name && core.TypeIs(cc.Value.Type(), "bus/net", "EndPoint") {
+			return cc.Args, true
+		}
+		return nil, false
+	}
+	f := cc.StaticCallee()
+	if f == nil {
+		return nil, false
+	}
+	if perm, ok := thinWrapperOf(c, f, name); ok {
+		args := make([]ssa.Value, len(perm))
+		for i, j := range perm {
+			if j >= len(cc.Args) {
+				return nil, false
+			}
+			args[i] = cc.Args[j]
+		}
+		return args, true
+	}
+	return nil, false
+}
+
 func handlerSites(c *core.Ctx, a *epAnchors) []handlerSite {
 	var out []handlerSite
 	for _, fn := range c.RepoFuncs() {
@@ -981,9 +1065,19 @@ func handlerSites(c *core.Ctx, a *epAnchors) []handlerSite {
 				}
 				name = cc.Method.Name()
 				args = cc.Args
+				// the registration inside a thin wrapper is seen at the wrapper's call sites
+				if _, isW := thinWrapperOf(c, fn, name); isW {
+					continue
+				}
 			} else if f := cc.StaticCallee(); f != nil && (f == a.makeHandler || f == a.addHandler) {
 				name = f.Name()
 				args = cc.Args[1:]
+			} else if f != nil {
+				for _, nm := range []string{"MakeHandler", "AddHandler"} {
+					if as, ok := epCall(c, call, nm); ok {
+						name, args = nm, as
+					}
+				}
 			}
 			if (name != "MakeHandler" && name != "AddHandler") || len(args) != 3 {
 				continue
